@@ -183,6 +183,12 @@ func (g *seqGen) offLen(o *MObj) (off, n uint64, rel string, y int64) {
 	}
 	switch {
 	case r.Chance(g.p.PHuge):
+		if r.Chance(0.25) {
+			// far beyond: up to 2^64-1 (offset + count may wrap around)
+			rel = "u64"
+			y = []int64{-1, -2, -4096, -4097, -int64(n), -int64(n) - 1, -int64(n) + 1, -1 << 62, 1 << 62, 1 << 40}[r.Intn(10)]
+			return 0, n, rel, y
+		}
 		// around the announced maximum file size
 		rel = "maxfile"
 		y = -int64(n) + []int64{0, 0, 1, -1, -4096, 4096, 7}[r.Intn(7)]
@@ -238,8 +244,8 @@ func (g *seqGen) next() *Op {
 				}
 				if k == "symlink" {
 					op.Len = 1 + r.Uint64n(60)
-					if r.Chance(0.1) {
-						op.Len = 1 + r.Uint64n(5000)
+					if r.Chance(0.15) {
+						op.Len = 1 + r.Uint64n(9000) // targets that span several blocks
 					}
 					op.Pat = g.nextPat
 					g.nextPat++
@@ -286,10 +292,10 @@ func (g *seqGen) next() *Op {
 				}
 			}
 		case "setattr":
-			if r.Chance(0.05) {
+			if r.Chance(0.12) {
 				ok = g.handleRef(op, false, kDIR, kREG, kLNK)
 				op.Len = 0
-				op.X = 1 // set times only
+				op.X = int64(1 + r.Intn(3)) // times only: both, atime only, mtime only
 			} else {
 				ok = g.handleRef(op, false, kREG)
 				if r.Chance(0.03) {
@@ -504,6 +510,8 @@ func toIn(op *Op, tbl map[int]string, lim *Limits) *In {
 		switch op.Raw {
 		case "maxfile":
 			in.Off = uint64(int64(lim.MaxFileSize) + op.Y)
+		case "u64":
+			in.Off = uint64(op.Y) // two's complement: -1 = 2^64-1
 		case "wtmax":
 			n = uint64(int64(lim.WtMax) + op.Y)
 			in.Count = n
@@ -517,6 +525,10 @@ func toIn(op *Op, tbl map[int]string, lim *Limits) *In {
 	case "setattr":
 		if op.X == 1 {
 			in.SetTm = true
+		} else if op.X == 2 {
+			in.SetAt = true
+		} else if op.X == 3 {
+			in.SetMt = true
 		} else {
 			in.SetSz = true
 			in.Size = op.Off
